@@ -82,4 +82,21 @@ def getMethodT (fuel : Nat) (tbl : Methods) (g : Inh) (bc : List Str) (frame cls
       let k2 := methodKey ("Builtin::".toList ++ frame) cls method isPrivate
       if frame != [] && frame != "Builtin".toList && has tbl k2 then some k2 else none
 
+/-- base.GetClassMethodT (class method resolution; the walk in the Builtin frame was added by a `fix:` commit) -/
+def getClassMethodT (fuel : Nat) (tbl : Methods) (g : Inh) (bc : List Str) (frame cls method : Str) (isPrivate : Bool) : Option FrameKey :=
+  let k0 := classMethodKey frame cls method isPrivate
+  if has tbl k0 then some k0 else
+  let k1 := classMethodKey "Builtin".toList cls method isPrivate
+  if has tbl k1 then some k1 else
+  match (walk fuel tbl g bc frame cls method isPrivate true []).1 with
+  | some r => some r
+  | none =>
+    match (walk fuel tbl g bc "Builtin".toList cls method isPrivate true []).1 with
+    | some r => some r
+    | none =>
+      let k2 := classMethodKey ("Builtin::".toList ++ frame) cls method false
+      if has tbl k2 then some k2 else
+      let k3 := classMethodKey "Builtin".toList [] method false
+      if has tbl k3 then some k3 else none
+
 end RubyTi.Inherit
